@@ -148,9 +148,38 @@ class TU:
         return "?"
 
 
+class ConfigTimeout(Exception):
+    pass
+
+
+def _alarm(signum, frame):
+    raise ConfigTimeout()
+
+
 def _worker(job):
     (modname, fname, pl, ak, what, std, flags, tag, extra) = job
     rec = Rec()
+    import signal
+    limit = int(os.environ.get("CV_CONFIG_TIMEOUT", "900"))
+    try:
+        signal.signal(signal.SIGALRM, _alarm)
+        signal.alarm(limit)
+    except (ValueError, AttributeError):
+        pass
+    try:
+        return _worker_body(job, rec)
+    except ConfigTimeout:
+        rec.broken("%s/%s%s: analysis of this configuration exceeded %d s (undecided)" % (pl.name, ak.name, tag, limit))
+        return rec.items
+    finally:
+        try:
+            signal.alarm(0)
+        except (ValueError, AttributeError):
+            pass
+
+
+def _worker_body(job, rec):
+    (modname, fname, pl, ak, what, std, flags, tag, extra) = job
     try:
         src, meta = gen.gen_vector_tu(pl, ak, what=what) if extra.get("gen", "vector") == "vector" else getattr(gen, extra["gen"])(pl, ak, **extra.get("genargs", {}))
         res = build.compile_one(src, "ir", std, flags)
